@@ -16,7 +16,7 @@ LEVEL_TEXT = (
     "For generated numeric expressions over bounded / half-bounded / unbounded int and real fluents, parameters and constants of any magnitude the "
     "inferred type of the expression and of every sub-expression is compared with exact rational evaluation at corner, extreme and random points "
     "of the leaves' declared types (lower <= value <= upper, integer-typed => integer value); Boolean and user-typed expressions must get exactly "
-    "their type; every ordered pair of a pool of 16 operand kinds is used to build Equals(l,r) and Equals(r,l), each in its own fresh environment, "
+    "their type; every ordered pair of a pool of 24 operand kinds (incl. a type hierarchy three levels deep with two branches) is used to build Equals(l,r) and Equals(r,l), each in its own fresh environment, "
     "which must both be accepted or both rejected. Replaces the SMT query of the quantifier text by sampling: weaker on infinite domains."
 )
 LEVEL_NOTE = "Trusted: vk/ref/evalx.py, vk/gen/interp.py (corner/extreme points), read-only accessors of Type (lower_bound, upper_bound, is_int_type...)."
@@ -29,8 +29,8 @@ BOUNDS = {"quick": dict(n=640, per=8, cap=40), "thorough": dict(n=16000, per=12,
 
 WORLD = {
     "name": "c15",
-    "types": [["T0", None], ["T1", "T0"], ["T2", None]],
-    "objects": [["a0", ["user", "T0"]], ["a1", ["user", "T1"]], ["a2", ["user", "T2"]]],
+    "types": [["T0", None], ["T1", "T0"], ["T2", None], ["T11", "T1"], ["T111", "T11"], ["S1", "T0"], ["S11", "S1"]],
+    "objects": [["a0", ["user", "T0"]], ["a1", ["user", "T1"]], ["a2", ["user", "T2"]], ["a11", ["user", "T11"]], ["a111", ["user", "T111"]], ["s1", ["user", "S1"]], ["s11", ["user", "S11"]]],
     "fluents": [
         {"name": "ib", "type": ["int", 0, 3], "sig": [], "default": ["i", 1]},
         {"name": "ineg", "type": ["int", -3, -1], "sig": [], "default": ["i", -1]},
@@ -48,6 +48,8 @@ WORLD = {
         {"name": "of0", "type": ["user", "T0"], "sig": [], "default": ["o", "a0"]},
         {"name": "of1", "type": ["user", "T1"], "sig": [], "default": ["o", "a1"]},
         {"name": "of2", "type": ["user", "T2"], "sig": [], "default": ["o", "a2"]},
+        {"name": "of111", "type": ["user", "T111"], "sig": [], "default": ["o", "a111"]},
+        {"name": "os11", "type": ["user", "S11"], "sig": [], "default": ["o", "s11"]},
     ],
     "actions": [],
     "init": [],
@@ -207,6 +209,14 @@ OPERANDS = {
     "objfluent-T0": ["f", "of0"],
     "objfluent-T1": ["f", "of1"],
     "objfluent-T2": ["f", "of2"],
+    # a hierarchy three levels deep with two branches: operands in different branches at different depths
+    "obj-T11-depth2": ["o", "a11"],
+    "obj-T111-depth3": ["o", "a111"],
+    "obj-S1-branch2": ["o", "s1"],
+    "obj-S11-branch2-depth2": ["o", "s11"],
+    "objfluent-T111": ["f", "of111"],
+    "objfluent-S11": ["f", "os11"],
+    "var-S1": ["v", "u", ["user", "S1"]],
     "var-T1": ["v", "x", ["user", "T1"]],
     "var-T2": ["v", "z", ["user", "T2"]],
     "num-expr": ["plus", ["f", "ib"], ["r", "1/3"]],
@@ -265,7 +275,7 @@ def symmetry(res, tier, only=None):
 def thresholds(m):
     c = m["counters"]
     out = []
-    for k, n in (("with_finite_bound", 300), ("div_nodes", 100), ("times_nodes", 100), ("equality_pairs", 200)):
+    for k, n in (("with_finite_bound", 300), ("div_nodes", 100), ("times_nodes", 100), ("equality_pairs", 500)):
         if c.get(k, 0) < n:
             out.append(f"{k} observed {c.get(k, 0)} < {n}")
     return out
